@@ -230,6 +230,20 @@ CLAIMS["C16"] = dict(
     technique="exception-path conversion check + guarded-descent dominance on the CFG + return-path stripping + recursion-shape of the post-processor",
     ref="3/C16",
 )
+CLAIMS["C04"] = dict(
+    text="The bytes on the wire for a given argument assignment are not decided. Decided on the generator's code: (1) location "
+    "exhaustiveness - every parameter location admitted into the signature (path, query, header, cookie) has an emitting consumer "
+    "(cookie has none: known finding); (2) every function that emits the transport call makes params=/headers= data-dependent "
+    "(the multi-content implementation emits literal None: known finding); (3) query/header entries are keyed by "
+    "json.dumps(original_name) and valued by the argument recorded for that parameter; (4) path-level/operation-level parameters are "
+    "merged by (name, in) and argument-name collisions are de-duplicated with path parameters keeping the name the URL template "
+    "uses; (5) required parameters use the plain entry and optional ones the conditional unpack template; (6) URL builder, "
+    "implementation method and signature use the same sanitizer for path variables; (7) the request body argument is emitted under "
+    "no other condition than 'the operation has a body of that content type' (not, e.g., the HTTP method) and refers only to "
+    "variables that the URL/args templates define.",
+    technique="exhaustiveness over parameter locations + data-dependence of emitted call arguments + guard-conjunct analysis on the CFG + provenance of template holes",
+    ref="3/C04",
+)
 
 NOT_APPLICABLE = {}
 
